@@ -13,10 +13,7 @@ include!("generated.rs");
 fn main() {
     // macrocases <Cxx> <macro_cases.txt> <outdir>
     let args: Vec<String> = std::env::args().collect();
-    std::panic::set_hook(Box::new(|info| {
-        let loc = info.location().map(|l| format!("{}:{}", l.file(), l.line())).unwrap_or_default();
-        pvharness::LAST_PANIC.with(|p| *p.borrow_mut() = loc);
-    }));
+    pvharness::install_panic_hook();
     assert!(NCASES > 0);
     pvharness::cmacro::run_cases(&args[1], &args[2], &args[3], &|i, vars| case(i, vars));
 }
